@@ -3,12 +3,19 @@ CONSTANTS
   Caps = {1}
   Classes = {}
   MaxSend = 0
-  Wall = {0, 1, 2, 3, 4, 5, 6}
-  MaxPublish = 10
+  Wall = {0, 1, 2, 3, 4}
+  MaxPublish = 8
+  Handles = {"p1", "p2", "p3"}
+  GCaps = {1, 2}
+  SplitCommit = FALSE
   PendingWithoutWake = FALSE
+  SkipBudget = 0
+  BudgetSelfWake = FALSE
   ClockAsCoded = FALSE
+  FloodLens = {}
+  FloodCap = 1
   KeepHist = TRUE
-  AtomicPolls = FALSE
+  AtomicPolls = TRUE
 INVARIANTS
   ExportPub
 CHECK_DEADLOCK FALSE
